@@ -306,6 +306,9 @@ def step (st : St) (line : String) : St × String :=
   | ["bundled", ins] => match GraphDriver.step (e.mode == .spec) ["bundled", ins] with
     | some r => (st, r)
     | none => (st, "bad-op")
+  | ["bundled_buf", ins, patch] => match GraphDriver.step (e.mode == .spec) ["bundled_buf", ins, patch] with
+    | some r => (st, r)
+    | none => (st, "bad-op")
   | "rln" :: rest =>
     match (if rest.head? == some "seeded_key_gen" || rest.head? == some "seeded_ext_key_gen" || rest.head? == some "key_gen" || rest.head? == some "ext_key_gen"
            then ProtoDriver.stepPure (protoEnv e) ("rln" :: rest) else none) with
